@@ -23,7 +23,8 @@ use crate::out::Out;
 use crate::rng::Rng;
 use crate::Args;
 use redis_sim::buggify::{self, faults, FaultConfig};
-use redis_sim::io::simulation::{ClockOffset, SimulatedRng, SimulationContext};
+use redis_sim::io::simulation::{ClockOffset, NodeId, SimulatedRng, SimulatedRuntime, SimulatedTimeSource, SimulationContext};
+use redis_sim::io::{Runtime as _, TimeSource as _};
 use redis_sim::io::{Rng as IoRng, Timestamp};
 use redis_sim::simulator::{
     DeterministicRng, Duration, EventType, HostId, Simulation, SimulationConfig, VirtualTime,
@@ -92,7 +93,7 @@ impl Wake for WakeRec {
 struct Kernel {
     rng: AnyRng,
     sim: Simulation,
-    ctx: SimulationContext,
+    ctx: Arc<SimulationContext>,
     wake_log: Arc<Mutex<Vec<u64>>>,
     /// harness-side shadow of the timers: id -> wake time (oracle only)
     timers: BTreeMap<u64, u64>,
@@ -113,7 +114,7 @@ impl Kernel {
         Kernel {
             rng: AnyRng::Sim(SimulatedRng::new(0)),
             sim: Simulation::new(SimulationConfig::default()),
-            ctx: SimulationContext::new(0, FaultConfig::disabled()),
+            ctx: Arc::new(SimulationContext::new(0, FaultConfig::disabled())),
             wake_log: Arc::new(Mutex::new(Vec::new())),
             timers: BTreeMap::new(),
         }
@@ -226,8 +227,55 @@ impl Kernel {
                 }
                 format!("now={} ev {}", self.sim.current_time().as_millis(), evs.join(" "))
             }
+            "SIME" => {
+                self.sim = Simulation::new(SimulationConfig { seed: n(1), max_time: VirtualTime::from_millis(u64::MAX), simulation_start_epoch: t[2].parse::<i64>().unwrap() });
+                "ok".into()
+            }
+            "EPOCH" => self.sim.simulation_start_epoch().to_string(),
+            "SRNG" => self.sim.rng().next_u64().to_string(),
+            "RUNALL" => {
+                // `run(handler)` = `run_until(config.max_time, handler)`
+                let mut evs: Vec<String> = Vec::new();
+                self.sim.run(|_s, e| evs.push(format!("{}:{}", e.time.as_millis(), e.host_id.0)));
+                format!("now={} n={} {}", self.sim.current_time().as_millis(), evs.len(), evs.join(" "))
+            }
+            "CTXS" => {
+                self.ctx = Arc::new(SimulationContext::new(n(1), FaultConfig::disabled()));
+                self.timers.clear();
+                self.wake_log.lock().unwrap().clear();
+                "ok".into()
+            }
+            "OFFSET" => {
+                let i = |k: usize| -> i64 { t[k].parse::<i64>().unwrap() };
+                self.ctx.set_clock_offset(NodeId(n(1) as usize), ClockOffset { fixed_offset_ms: i(2), drift_ppm: i(3), drift_anchor: Timestamp::from_millis(i(4) as u64) });
+                "ok".into()
+            }
+            "LOCAL" => {
+                let node = NodeId(n(1) as usize);
+                let a = self.ctx.local_time(node).as_millis();
+                let ts = SimulatedTimeSource::new(self.ctx.clone(), node);
+                let b = ts.now_millis();
+                let c = if node.0 == 0 { SimulatedTimeSource::new_default(ts.context().clone()).now_millis() } else { b };
+                if a != b || b != c {
+                    complaints.push(("C20:clock:time-source-disagrees-with-context".into(), format!("{} -> local_time {} vs SimulatedTimeSource {} / {}", line, a, b, c)));
+                }
+                a.to_string()
+            }
+            "NID" => self.ctx.next_id().to_string(),
+            "CRANGE" => {
+                // the context's own generator, through SimulatedRuntime::rng()
+                let rt = SimulatedRuntime::new(self.ctx.clone(), NodeId(0));
+                let v = rt.rng().gen_range(n(1), n(2));
+                rt.spawn(async {});
+                v.to_string()
+            }
+            "DBG" => {
+                let rt = SimulatedRuntime::new(self.ctx.clone(), NodeId(n(1) as usize));
+                let ts = SimulatedTimeSource::new(self.ctx.clone(), NodeId(n(1) as usize));
+                format!("{:?} | {:?} | {:?}", self.ctx, rt, ts)
+            }
             "CTX" => {
-                self.ctx = SimulationContext::new(0, FaultConfig::disabled());
+                self.ctx = Arc::new(SimulationContext::new(0, FaultConfig::disabled()));
                 self.timers.clear();
                 self.wake_log.lock().unwrap().clear();
                 "ok".into()
@@ -341,7 +389,7 @@ fn gen_script(r: &mut Rng, flavour: u64) -> Vec<String> {
         }
         // Simulation: heap ties, re-push at the horizon, network draws
         3 | 4 => {
-            s.push(format!("SIM {}", seed_value(r)));
+            if flavour == 3 { s.push(format!("SIM {}", seed_value(r))) } else { s.push(format!("SIME {} {}", seed_value(r), r.below(3_000_000_000) as i64 - 1_000_000_000)); s.push("EPOCH".into()); }
             let hosts = 2 + r.below(4);
             for _ in 0..hosts { s.push("HOST".into()); }
             let tie_delays = [0u64, 5, 5, 5, 10, 10, 20];
@@ -359,14 +407,18 @@ fn gen_script(r: &mut Rng, flavour: u64) -> Vec<String> {
                 horizon += r.below(25);
                 s.push(format!("RUNTO {}", horizon));
             }
-            s.push(format!("RUNTO {}", u64::MAX));
+            if r.chance(1, 2) { s.push(format!("RUNTO {}", u64::MAX)) } else { s.push("SRNG".into()); s.push("RUNALL".into()) }
         }
         // SimulationContext timers
         5 => {
-            s.push("CTX".into());
+            if r.chance(1, 2) { s.push("CTX".into()) } else { s.push(format!("CTXS {}", seed_value(r))) }
             let mut now = 0u64;
             for _ in 0..(10 + r.below(40)) {
-                match r.below(10) {
+                match r.below(14) {
+                    10 => s.push(format!("OFFSET {} {} {} {}", r.below(3), r.below(2001) as i64 - 1000, r.below(10_001) as i64 - 5000, r.below(50))),
+                    11 => s.push(format!("LOCAL {}", r.below(4))),
+                    12 => s.push(if r.chance(1, 2) { "NID".to_string() } else { format!("DBG {}", r.below(3)) }),
+                    13 => { let (lo, hi) = range_bounds(r); s.push(format!("CRANGE {} {}", lo, hi)); }
                     0..=5 => s.push(format!("TADD {}", if r.chance(2, 3) { now + *r.pick(&[0u64, 3, 3, 3, 7, 7, 10]) } else { r.below(60) })),
                     6 => { now += r.below(8); s.push(format!("TADV {}", now)); }
                     7 => { let d = r.below(6); now += d; s.push(format!("TBY {}", d)); }
@@ -505,9 +557,27 @@ mod real {
 
     pub fn crdt_config(preset: &str, seed: u64) -> Option<CRDTDSTConfig> {
         match preset {
+            // a replica count no preset uses (1 … 8), a function of the seed
+            "default" => Some(CRDTDSTConfig::new(seed, 1 + (seed % 8) as usize)),
             "calm" => Some(CRDTDSTConfig::calm(seed)),
             "moderate" => Some(CRDTDSTConfig::moderate(seed)),
             "chaos" => Some(CRDTDSTConfig::chaos(seed)),
+            // corpus: no message ever arrives (drop probability 1.0, three replicas): the replicas do not
+            // converge and the harness reports it — the violation texts become observable
+            "corpus-drop1" => {
+                let mut c = CRDTDSTConfig::new(seed, 3);
+                c.message_drop_prob = 1.0;
+                Some(c)
+            }
+            // GENERATED: replica counts 1 … 8 and the legal extremes of the drop probability (0: every
+            // sync merges; 1: no message ever arrives, the replicas never converge and the harness
+            // REPORTS it — the violation texts become reachable)
+            "gen" => {
+                let mut r = Rng::new(seed ^ 0xC4D);
+                let mut c = CRDTDSTConfig::new(seed, 1 + r.below(8) as usize);
+                c.message_drop_prob = *r.pick(&[0.0, 0.3, 0.9, 1.0, 1.0]);
+                Some(c)
+            }
             _ => None,
         }
     }
@@ -520,7 +590,7 @@ mod real {
     }
 
     /// ORSet violation text with the two sets canonicalised
-    fn canon_violation(s: &str) -> String {
+    pub fn canon_violation(s: &str) -> String {
         if let Some((head, rest)) = s.split_once(" has different elements: ") {
             if let Some((a, b)) = rest.split_once(" vs expected ") {
                 return format!("{} has different elements: {} vs expected {}", head, canon_set(a), canon_set(b));
@@ -632,12 +702,21 @@ mod real {
             "chaos" => Some(DSTConfig::chaos(seed)),
             // more nodes, shorter recoveries: several nodes are down at once far more often
             "chaos9" => Some(DSTConfig::chaos(seed).with_nodes(9)),
+            // comparison at equality (`current_time >= max_time_ms`): the time limit is COMPUTED from the
+            // state — the virtual time a probe run of the same seed shows after 40 steps, minus one / exactly / plus one
+            "limit-below" | "limit-at" | "limit-above" => {
+                let mut probe = DSTSimulation::with_config(DSTConfig::chaos(seed));
+                probe.run_operations(40);
+                let t = probe.current_time().as_millis();
+                let lim = match preset { "limit-below" => t.saturating_sub(1), "limit-at" => t, _ => t + 1 };
+                Some(DSTConfig::chaos(seed).with_max_time(lim))
+            }
             // a GENERATED configuration (beyond the presets), a function of the seed
             "gen" => {
                 let mut r = Rng::new(seed ^ 0xD57);
                 let mut fc = FaultConfig::new();
                 fc.global_multiplier = *r.pick(&[0.1, 1.0, 3.0]);
-                fc.set(faults::process::CRASH, *r.pick(&[0.0, 0.001, 0.01, 0.05, 0.2, 0.5]));
+                fc.set(faults::process::CRASH, *r.pick(&[0.0, 0.001, 0.01, 0.05, 0.2, 0.5, 1.0]));
                 let min_rec = *r.pick(&[0u64, 1, 100, 3000]);
                 let mut c = DSTConfig::new(seed).with_nodes(1 + r.below(12) as usize).with_faults(fc)
                     .with_max_time(*r.pick(&[500u64, 5_000, 60_000])).with_clock_skew(r.chance(1, 2));
@@ -687,6 +766,14 @@ mod real {
             "result time={} ops={} crashes={} recoveries={} lin={} conv={} errors={} history={}",
             res.total_time_ms, res.total_operations, res.crashes, res.recoveries, res.linearizable, res.converged, res.errors.len(), res.operation_history.len()
         ));
+        // a second instance through `run_operations(ops)` as ONE call: its own loop and time-limit test
+        // (`current_time >= max_time_ms`) decide how many steps are made
+        {
+            let cfg2 = dst_config(preset, seed).expect("same preset");
+            let mut whole = DSTSimulation::with_config(cfg2);
+            let r = whole.run_operations(ops).clone();
+            lines.push(format!("whole time={} ops={} crashes={} recoveries={}", r.total_time_ms, r.total_operations, r.crashes, r.recoveries));
+        }
         raw.push(format!("summary {}", res.summary()));
         raw.push(format!("steps-with-2+-crashed {}", multi));
         raw.push(format!("avg-recovery {:?}", sim.crash_simulator().stats().average_recovery_time_ms.to_bits()));
@@ -699,26 +786,83 @@ mod real {
         true
     }
 
+    /// the fault configuration and key distribution of a `redis-dst` preset
+    pub fn redis_dst_setup(preset: &str) -> Option<(FaultConfig, usize, Option<(u64, f64)>, u64, bool)> {
+        // (faults, nodes, Some((zipf keys, skew)) | None = uniform, uniform keys, manual stepping)
+        Some(match preset {
+            "calm" => (FaultConfig::calm(), 5, Some((1000, 1.0)), 0, false),
+            "moderate" => (FaultConfig::moderate(), 5, Some((1000, 1.0)), 0, false),
+            "chaos" => (FaultConfig::chaos(), 5, Some((1000, 1.0)), 0, false),
+            "uniform" => (FaultConfig::chaos(), 4, None, 50, false),
+            "zipf-small" => (FaultConfig::moderate(), 3, Some((20, 1.5)), 0, false),
+            "steps" => (FaultConfig::chaos(), 5, Some((1000, 1.0)), 0, true),
+            _ => return None,
+        })
+    }
+
     pub fn redis_dst(preset: &str, seed: u64, ops: usize, lines: &mut Vec<String>, raw: &mut Vec<String>) -> bool {
-        let cfg = match preset {
-            "calm" => FaultConfig::calm(),
-            "moderate" => FaultConfig::moderate(),
-            "chaos" => FaultConfig::chaos(),
-            _ => return false,
-        };
+        use redis_sim::simulator::dst_integration::KeyDistribution;
+        let Some((cfg, nodes, zipf, ukeys, manual)) = redis_dst_setup(preset) else { return false };
         // as run_redis_dst_batch does
         buggify::reset_stats();
         buggify::set_config(cfg.clone());
-        let mut sim = RedisDSTSimulation::new(seed, 5).with_faults(cfg);
-        let res = sim.run(ops).clone();
+        let mut sim = match (preset, zipf) {
+            ("calm" | "moderate" | "chaos" | "steps", _) => RedisDSTSimulation::new(seed, nodes),
+            (_, None) => RedisDSTSimulation::new_uniform(seed, nodes, ukeys),
+            (_, Some((k, sk))) => RedisDSTSimulation::with_key_distribution(seed, nodes, KeyDistribution::Zipfian { num_keys: k, skew: sk }),
+        }
+        .with_faults(cfg);
+        let res = if manual {
+            // `step()` by hand (no time limit) plus one extra `random_operation()` per step
+            for _ in 0..ops {
+                sim.step();
+                sim.random_operation();
+            }
+            sim.run(0).clone()
+        } else {
+            sim.run(ops).clone()
+        };
         for op in &res.operation_history {
             lines.push(format!("{:?}", op));
         }
         lines.push(format!("result time={} ops={} crashes={} recoveries={} by_type={}", res.total_time_ms, res.total_operations, res.crashes, res.recoveries, sorted_map(&res.operations_by_type)));
         let st = sim.stats();
-        lines.push(format!("stats {:?}", st));
+        lines.push(format!("stats {:?} converged={}", st, sim.check_convergence()));
         raw.push(format!("buggify checks={} triggers={}", sorted_map(&res.buggify_stats.checks), sorted_map(&res.buggify_stats.triggers)));
         true
+    }
+
+    /// a generator that answers every draw with one fixed value: probes `ZipfianGenerator::sample`
+    struct Fixed(u64);
+    impl redis_sim::io::Rng for Fixed {
+        fn next_u64(&mut self) -> u64 { self.0 }
+        fn gen_bool(&mut self, _p: f64) -> bool { false }
+        fn gen_range(&mut self, _lo: u64, _hi: u64) -> u64 { self.0 }
+        fn shuffle<T>(&mut self, _s: &mut [T]) {}
+    }
+
+    /// the REAL sampler as a step function of its one draw `v = gen_range(0, 10^6)`: the boundaries
+    /// `b_1 <= b_2 <= …` with `sample(v) = #{ j | b_j <= v }`; None when it is not monotone
+    pub fn zipf_boundaries(num_keys: u64, skew: f64) -> Option<Vec<u64>> {
+        use redis_sim::simulator::dst_integration::ZipfianGenerator;
+        let z = ZipfianGenerator::new(num_keys, skew);
+        let mut b = Vec::new();
+        let mut prev = 0u64;
+        for v in 0..1_000_000u64 {
+            let s = z.sample(&mut Fixed(v));
+            if s < prev {
+                return None;
+            }
+            for _ in prev..s {
+                b.push(v);
+            }
+            prev = s;
+        }
+        // generate_key is `key<sample>`
+        if z.generate_key(&mut Fixed(999_999)) != format!("key{}", prev) {
+            return None;
+        }
+        Some(b)
     }
 
     /// `member:12` / `field:3` / `value:7` -> the number
@@ -812,6 +956,7 @@ mod real {
                         c.weight_hash = w(&mut r);
                         c.weight_sorted_set = w(&mut r);
                         c.weight_expiry = 1 + w(&mut r);
+                        c.zipf_exponent = *r.pick(&[0.5, 1.0, 1.0, 1.5, 2.0]);
                         c
                     }
                     _ => return false,
@@ -1012,6 +1157,14 @@ mod real {
     }
 
     fn gen_store(r: &mut Rng, sc: &mut redis_sim::streaming::SimulatedStoreConfig) {
+        use redis_sim::streaming::SimulatedStoreConfig;
+        // the store's own presets, or (half the time) field-by-field
+        match r.below(6) {
+            0 => { *sc = SimulatedStoreConfig::no_faults(); return; }
+            1 => { *sc = SimulatedStoreConfig::high_chaos(); return; }
+            2 => { *sc = SimulatedStoreConfig::default(); return; }
+            _ => {}
+        }
         let p = [0.0, 0.01, 0.1, 0.4];
         sc.put_fail_prob = *r.pick(&p);
         sc.get_fail_prob = *r.pick(&p);
@@ -1024,7 +1177,7 @@ mod real {
         sc.latency_range_us = *r.pick(&[(0u64, 0u64), (100, 10_000), (5, 5)]);
     }
 
-    fn paused_runtime() -> tokio::runtime::Runtime {
+    pub fn paused_runtime() -> tokio::runtime::Runtime {
         // virtual tokio time: the simulated stores' latency sleeps complete immediately
         tokio::runtime::Builder::new_current_thread().enable_time().start_paused(true).build().expect("runtime")
     }
@@ -1426,6 +1579,10 @@ mod real {
     }
 }
 
+pub fn paused_runtime() -> tokio::runtime::Runtime {
+    real::paused_runtime()
+}
+
 /// one real harness run: canonical trace (what a model predicts, where there is one), verbatim
 /// report lines (compared between processes only) and, for `dst`, the iteration order `pi`
 #[derive(Clone, PartialEq, Debug, Default)]
@@ -1465,6 +1622,12 @@ fn harness_trace_inner(harness: &str, preset: &str, seed: u64, ops: usize) -> Op
             "partition" => real::partition(preset, seed, &mut t.lines),
             "connection" => real::pipeline(seed, &mut t.lines),
             "scenario" => real::scenario(preset, seed, ops, &mut t.lines),
+            "batch" => crate::c20_more::batch(preset, seed, ops, &mut t.lines, &mut t.raw),
+            "dst-api" => crate::c20_more::dst_api(preset, seed, ops, &mut t.lines, &mut t.raw),
+            "scenario-timing" => crate::c20_more::scenario_timing(preset, seed, ops, &mut t.lines, &mut t.raw),
+            "streaming-workload" | "compaction-workload" => crate::c20_more::workload(harness, preset, seed, ops, &mut t.lines, &mut t.raw),
+            "connection-gen" => crate::c20_more::connection_gen(preset, seed, ops, &mut t.lines, &mut t.raw),
+            "multi-node-api" => crate::c20_more::multi_node_api(preset, seed, ops, &mut t.lines, &mut t.raw),
             "sim-executor" => {
                 // the kernel script generator of part A, Simulation / timer flavours
                 let mut r = Rng::new(seed);
@@ -1546,7 +1709,7 @@ fn run_child(harness: &str, preset: &str, seed: u64, ops: usize) -> Result<Trace
 }
 
 /// configuration numbers of the REAL preset, appended to the `RUN` line for the model
-fn cfg_numbers(harness: &str, preset: &str, seed: u64) -> Option<String> {
+fn cfg_numbers(harness: &str, preset: &str, seed: u64, ops: usize) -> Option<String> {
     if harness.starts_with("crdt-") {
         let c = real::crdt_config(preset, seed)?;
         return Some(format!("{} {}", c.num_replicas, c.message_drop_prob.to_bits()));
@@ -1592,6 +1755,51 @@ fn cfg_numbers(harness: &str, preset: &str, seed: u64) -> Option<String> {
             sc.disk_full_prob.to_bits(), c.simulate_crash as u8, c.fsync_after_write as u8, l.join(" ")
         ));
     }
+    if harness == "redis-dst" {
+        let (fc, nodes, zipf, ukeys, manual) = real::redis_dst_setup(preset)?;
+        let d = redis_sim::simulator::dst::DSTConfig::default();
+        let p = fc.get(faults::process::CRASH);
+        let (kind, nkeys, table) = match zipf {
+            None => (0u8, ukeys, Vec::new()),
+            Some((k, sk)) => (1u8, k, real::zipf_boundaries(k, sk)?),
+        };
+        return Some(format!(
+            "{} {} {} {} {} {} {} {} {} {} {} {} {} {}",
+            nodes, p.to_bits(), d.crash_config.enable_buggify_crashes as u8, d.enable_clock_skew as u8, d.max_clock_skew_ms * 2, d.max_clock_drift_ppm * 2,
+            d.crash_config.min_recovery_time_ms, d.crash_config.max_recovery_time_ms, d.max_time_ms, crate::cfg::CODE_DST_SORTS_NODES as u8, manual as u8, kind, nkeys,
+            table.iter().map(|x| x.to_string()).collect::<Vec<_>>().join(" ")
+        ).trim_end().to_string());
+    }
+    if harness == "dst-api" && preset == "sim" {
+        let (variant, nodes, p, script) = crate::c20_more::dst_api_script(seed, ops)?;
+        let c = if variant == 0 {
+            let mut fc = FaultConfig::new();
+            fc.set(faults::process::CRASH, p);
+            let mut c = redis_sim::simulator::dst::DSTConfig::new(seed);
+            c.fault_config = fc;
+            c
+        } else {
+            redis_sim::simulator::dst::DSTConfig::chaos(seed).with_crash_config(redis_sim::simulator::CrashConfig { min_recovery_time_ms: 5, max_recovery_time_ms: 50, ..Default::default() })
+        };
+        let init_nodes = if variant == 0 { c.node_count } else { nodes };
+        let flat: Vec<String> = script.iter().map(|(a, b, c)| format!("{} {} {}", a, b, c)).collect();
+        return Some(format!("{} {} {} {} {} {} {} {} {} {} {}", nodes, init_nodes, c.fault_config.get(faults::process::CRASH).to_bits(), c.crash_config.enable_buggify_crashes as u8,
+            c.enable_clock_skew as u8, c.max_clock_skew_ms, c.max_clock_drift_ppm, c.crash_config.min_recovery_time_ms, c.crash_config.max_recovery_time_ms, crate::cfg::CODE_DST_SORTS_NODES as u8, flat.join(" ")));
+    }
+    if harness == "scenario-timing" {
+        let sc = crate::c20_more::scenario_of(preset, seed, ops)?;
+        let (en, bits) = match sc.buggify { Some(p) => (1u8, p.to_bits()), None => (0, 0) };
+        let ops: Vec<String> = sc.ops.iter().map(|(t, c)| format!("{} {}", t, c)).collect();
+        return Some(format!("{} {} {} {}", en, bits, sc.evict_ms, ops.join(" ")));
+    }
+    if harness == "streaming-workload" {
+        let c = crate::c20_more::streaming_cfg(preset, seed)?;
+        return Some(format!("{} {} {}", c.crash_probability.to_bits(), (c.crash_probability + c.flush_probability).to_bits(), c.replica_id));
+    }
+    if harness == "compaction-workload" {
+        let c = crate::c20_more::compaction_cfg(preset, seed)?;
+        return Some(format!("{} {} {}", c.compact_probability.to_bits(), (c.compact_probability + c.flush_probability).to_bits(), c.replica_id));
+    }
     if harness == "dst" {
         let c = real::dst_config(preset, seed)?;
         // the probability `should_buggify` will read: the real FaultConfig::get of this preset
@@ -1610,6 +1818,14 @@ fn cfg_numbers(harness: &str, preset: &str, seed: u64) -> Option<String> {
 /// where a family has no model, a process-dependent trace is attributed to a CAUSE by the shape of
 /// its first divergence; anything that does not have that shape keeps the bare signature (unlisted)
 fn divergence_class(family: &str, preset: &str, a: Option<&String>, b: Option<&String>) -> &'static str {
+    if family == "dst-api" {
+        if let (Some(a), Some(b)) = (a, b) {
+            if a.starts_with("buggify-summary ") && b.starts_with("buggify-summary ") {
+                // everything up to the result agrees; only the BUGGIFY statistics copied into the result differ
+                return ":buggify-stats-cumulative";
+            }
+        }
+    }
     if family == "multi-node" {
         if let (Some(a), Some(b)) = (a, b) {
             let strip = |s: &str| -> (String, String) {
@@ -1634,6 +1850,23 @@ fn divergence_class(family: &str, preset: &str, a: Option<&String>, b: Option<&S
     ""
 }
 
+/// signature of a difference between the verbatim report lines of two runs, by CAUSE:
+/// an accessor listing a hash container (`order-of:<name> …`), a violation text that differs only in
+/// the order in which a `HashSet` was rendered, or — anything else — the bare signature
+fn raw_diff_signature(family: &str, scope: &str, a: Option<&String>, b: Option<&String>) -> (String, String) {
+    if let Some(acc) = a.and_then(|l| l.strip_prefix("order-of:")).and_then(|l| l.split(' ').next()) {
+        return (format!("C20:accessor-in-map-order:{}:{}", family, acc),
+            format!("the public accessor {} returns the simulation's final state in an order that differs between two runs (it iterates a HashMap)", acc));
+    }
+    if let (Some(a), Some(b)) = (a, b) {
+        if a.starts_with("violation ") && b.starts_with("violation ") && a != b && real::canon_violation(a) == real::canon_violation(b) {
+            return (format!("C20:violation-text-in-hashset-order:{}", family),
+                "the violation text the harness reports renders two HashSets with {:?}: same sets, different element order in different runs".to_string());
+        }
+    }
+    (format!("C20:report-differs-{}:{}", scope, family), "the text the harness reports (summary / violation strings / statistics) differs between two runs".to_string())
+}
+
 struct Family {
     name: &'static str,
     presets: &'static [&'static str],
@@ -1644,13 +1877,13 @@ struct Family {
 }
 
 const FAMILIES: &[Family] = &[
-    Family { name: "crdt-gcounter", presets: &["calm", "moderate", "chaos"], ops: 200, modelled: true, quick_presets: 3 },
-    Family { name: "crdt-pncounter", presets: &["calm", "moderate", "chaos"], ops: 200, modelled: true, quick_presets: 3 },
-    Family { name: "crdt-orset", presets: &["calm", "moderate", "chaos"], ops: 200, modelled: true, quick_presets: 3 },
-    Family { name: "crdt-vclock", presets: &["calm", "moderate", "chaos"], ops: 200, modelled: true, quick_presets: 3 },
-    Family { name: "dst", presets: &["chaos", "chaos9", "default", "calm", "gen"], ops: 400, modelled: true, quick_presets: 5 },
+    Family { name: "crdt-gcounter", presets: &["calm", "moderate", "chaos", "default", "gen"], ops: 200, modelled: true, quick_presets: 5 },
+    Family { name: "crdt-pncounter", presets: &["calm", "moderate", "chaos", "default", "gen"], ops: 200, modelled: true, quick_presets: 5 },
+    Family { name: "crdt-orset", presets: &["corpus-drop1", "calm", "moderate", "chaos", "default", "gen"], ops: 200, modelled: true, quick_presets: 6 },
+    Family { name: "crdt-vclock", presets: &["calm", "moderate", "chaos", "default", "gen"], ops: 200, modelled: true, quick_presets: 5 },
+    Family { name: "dst", presets: &["chaos", "chaos9", "default", "calm", "gen", "limit-below", "limit-at", "limit-above"], ops: 400, modelled: true, quick_presets: 8 },
     Family { name: "sim-executor", presets: &["script"], ops: 0, modelled: false, quick_presets: 1 },
-    Family { name: "redis-dst", presets: &["chaos", "moderate", "calm"], ops: 150, modelled: false, quick_presets: 2 },
+    Family { name: "redis-dst", presets: &["chaos", "moderate", "uniform", "zipf-small", "steps", "calm"], ops: 150, modelled: true, quick_presets: 5 },
     Family { name: "executor", presets: &["default", "chaos", "gen", "calm", "string_heavy"], ops: 300, modelled: false, quick_presets: 3 },
     Family { name: "list", presets: &["default", "high_churn", "modify_heavy", "gen"], ops: 300, modelled: true, quick_presets: 4 },
     Family { name: "set", presets: &["default", "small_members", "high_churn", "large_members", "gen"], ops: 300, modelled: true, quick_presets: 5 },
@@ -1665,13 +1898,36 @@ const FAMILIES: &[Family] = &[
     Family { name: "wal", presets: &["chaos", "default", "crash_only", "baseline", "chaos_nofsync", "chaos_tiny_files", "gen"], ops: 0, modelled: true, quick_presets: 7 },
     Family { name: "connection", presets: &["pipeline"], ops: 0, modelled: false, quick_presets: 1 },
     Family { name: "scenario", presets: &["buggify", "plain"], ops: 120, modelled: false, quick_presets: 1 },
+    // session 3: entry points found by the source-derived audit (c20_src.rs / c20_more.rs)
+    Family { name: "scenario-timing", presets: &["buggify", "evict", "gen", "buggify-always", "buggify-never", "plain"], ops: 60, modelled: true, quick_presets: 6 },
+    Family { name: "streaming-workload", presets: &["default", "calm", "moderate", "chaos", "gen"], ops: 200, modelled: true, quick_presets: 5 },
+    Family { name: "compaction-workload", presets: &["default", "calm", "aggressive", "chaos", "gen"], ops: 200, modelled: true, quick_presets: 5 },
+    Family { name: "batch", presets: crate::c20_more::BATCH_PRESETS, ops: 60, modelled: false, quick_presets: 15 },
+    Family { name: "dst-api", presets: &["sim", "crash"], ops: 150, modelled: false, quick_presets: 2 },
+    Family { name: "connection-gen", presets: &["conn", "readbuf", "pipeline-sizes"], ops: 25, modelled: false, quick_presets: 3 },
+    Family { name: "multi-node-api", presets: &["corpus-deltas8", "broadcast", "partitioned"], ops: 60, modelled: false, quick_presets: 3 },
 ];
+
+/// is the family run by part B, and is its trace predicted by a Lean model?
+pub fn family_modelled(name: &str) -> Option<bool> {
+    FAMILIES.iter().find(|f| f.name == name).map(|f| f.modelled)
+}
 
 fn part_b(a: &Args, out: &mut Out) {
     let thorough = a.tier == "thorough";
     let k_children = if thorough { 5 } else { 3 };
-    let seeds: Vec<u64> = if thorough { (a.seed..a.seed + 20).collect() } else { (a.seed..a.seed + 5).collect() };
+    let seeds: Vec<u64> = if thorough { (a.seed..a.seed + 20).collect() } else { (a.seed..a.seed + 8).collect() };
     let only = std::env::var("C20_ONLY").ok();
+    if let Ok(r) = std::env::var("C20_SRC_ROOT") {
+        out.violation("C20:harness:partial-run", &format!("C20_SRC_ROOT={} is set: the source scan read another tree than the one this binary was built against", r), json!({"C20_SRC_ROOT": r}));
+    }
+    if let Some(o) = &only {
+        // a development aid; a run that skipped families must never count as a passing check
+        out.violation("C20:harness:partial-run", &format!("C20_ONLY={} is set: only some harness families were run", o), json!({"C20_ONLY": o}));
+    }
+    // seeds at the edges of u64 as well (one per family and preset, rotating)
+    const EDGE_SEEDS: [u64; 6] = [0, u64::MAX, 1 << 32, (1 << 63) - 1, 1 << 63, u64::MAX - 1];
+    let mut edge_i = 0usize;
     let mut explored: BTreeMap<String, serde_json::Value> = BTreeMap::new();
     for fam in FAMILIES {
         if let Some(o) = &only {
@@ -1684,8 +1940,14 @@ fn part_b(a: &Args, out: &mut Out) {
         let presets = if thorough { fam.presets } else { &fam.presets[..fam.quick_presets] };
         for preset in presets {
             // the process-level comparison costs K+3 runs: fewer seeds for the slow families in quick
-            let fam_seeds: &[u64] = if !thorough && !fam.modelled && matches!(fam.name, "streaming" | "compaction" | "redis-dst" | "multi-node") { &seeds[..3] } else { &seeds };
-            for &seed in fam_seeds {
+            let fam_seeds: &[u64] = if !thorough && !fam.modelled && matches!(fam.name, "streaming" | "compaction" | "multi-node" | "batch") { &seeds[..3] } else { &seeds };
+            let mut fam_seeds: Vec<u64> = fam_seeds.to_vec();
+            edge_i += 1;
+            fam_seeds.push(EDGE_SEEDS[edge_i % EDGE_SEEDS.len()]);
+            if thorough {
+                fam_seeds.push(EDGE_SEEDS[(edge_i + 3) % EDGE_SEEDS.len()]);
+            }
+            for &seed in &fam_seeds {
                 let ops = if thorough { fam.ops * 2 } else { fam.ops };
                 let replay = json!({"harness": fam.name, "preset": preset, "seed": seed, "ops": ops,
                     "how": format!("rvharness --c20-child {} {} {} {}   (run it several times and diff)", fam.name, preset, seed, ops)});
@@ -1719,15 +1981,36 @@ fn part_b(a: &Args, out: &mut Out) {
                     if t.raw != traces[0].raw {
                         let i = first_diff(&traces[0].raw, &t.raw);
                         all_same = false;
-                        out.violation(&format!("C20:report-differs-across-processes:{}", fam.name),
-                            &format!("{} {} seed {}: the text the harness reports (summary / violation strings / float statistics) differs between two fresh processes", fam.name, preset, seed),
+                        let (sig, what) = raw_diff_signature(fam.name, "across-processes", traces[0].raw.get(i), t.raw.get(i));
+                        out.violation(&sig, &format!("{} {} seed {} (two fresh processes): {}", fam.name, preset, seed, what),
                             json!({"replay": replay, "process_1": traces[0].raw.get(i), "process_n": t.raw.get(i)}));
                         break;
                     }
                 }
                 // same process: twice, and once more after unrelated simulation activity
+                let stats_before = buggify::get_stats().checks.get(faults::process::CRASH).copied().unwrap_or(0);
                 let p1 = harness_trace(fam.name, preset, seed, ops).expect("known harness");
+                if fam.name == "dst-api" && *preset == "sim" {
+                    // SimulationResult.buggify_stats: what this run reports given what was on the thread before
+                    let get = |t: &Trace| -> Option<u64> { t.lines.iter().find_map(|l| l.strip_prefix("buggify-summary crash_checks=")).and_then(|l| l.split(' ').next()).and_then(|x| x.parse().ok()) };
+                    if let (Some(own), Some(rep)) = (get(&traces[0]), get(&p1)) {
+                        out.op(format!("BSTATS {} {} {}", crate::cfg::CODE_DST_RESETS_STATS as u8, stats_before, own), rep.to_string());
+                    }
+                }
                 let p2 = harness_trace(fam.name, preset, seed, ops).expect("known harness");
+                if p1.lines == p2.lines && p1.raw != p2.raw {
+                    let i = first_diff(&p1.raw, &p2.raw);
+                    all_same = false;
+                    let (sig, what) = raw_diff_signature(fam.name, "in-process", p1.raw.get(i), p2.raw.get(i));
+                    out.violation(&sig, &format!("{} {} seed {} (two runs in one process): {}", fam.name, preset, seed, what),
+                        json!({"replay": replay, "first": p1.raw.get(i), "second": p2.raw.get(i)}));
+                }
+                // a harness that panics on one of its OWN presets would agree with itself in every process
+                let generated = preset.starts_with("gen") || matches!(fam.name, "dst-api" | "connection-gen" | "multi-node-gen" | "scenario-timing");
+                if !generated && traces[0].lines.first().map(|l| l.starts_with("panic: ")).unwrap_or(false) && !(EDGE_SEEDS.contains(&seed) && seed > (1 << 62)) {
+                    all_same = false;
+                    out.violation(&format!("C20:harness-panicked:{}", fam.name), &format!("{} {} seed {}: the harness panics on a built-in preset: {}", fam.name, preset, seed, traces[0].lines[0]), json!({"replay": replay}));
+                }
                 if p1.lines != p2.lines {
                     let i = first_diff(&p1.lines, &p2.lines);
                     all_same = false;
@@ -1756,6 +2039,13 @@ fn part_b(a: &Args, out: &mut Out) {
                         &format!("{} {} seed {}: the parent process and a fresh child differ; first divergence at trace line {}", fam.name, preset, seed, i + 1),
                         json!({"replay": replay, "line": i + 1, "parent": p1.lines.get(i), "child": traces[0].lines.get(i)}));
                 }
+                for l in traces[0].lines.iter().filter(|l| l.starts_with("ORACLE-FAIL ")) {
+                    let mut it = l.splitn(3, ' ');
+                    it.next();
+                    let sig = it.next().unwrap_or("child-oracle");
+                    all_same = false;
+                    out.violation(&format!("C20:{}", sig), &format!("{} {} seed {}: {}", fam.name, preset, seed, it.next().unwrap_or("")), json!({"replay": replay}));
+                }
                 if all_same {
                     agree += 1;
                 } else {
@@ -1770,8 +2060,30 @@ fn part_b(a: &Args, out: &mut Out) {
                 out.count_n(&format!("trace-lines:{}", fam.name), traces[0].lines.len() as u64);
                 let canon = format!("{} {} {} {}", fam.name, preset, seed, ops);
                 out.case(&canon, traces[0].lines.len() > 3 || fam.name == "wal");
+                if fam.name == "multi-node-api" && *preset == "corpus-deltas8" {
+                    // the accessor's order in THIS process is the map order (or the key order, in the repaired code)
+                    for t in traces.iter() {
+                        if let Some(l) = t.raw.iter().find(|l| l.starts_with("order-of:get_all_deltas node0 ")) {
+                            let idx: Vec<String> = l.rsplit(' ').next().unwrap_or("").split(',').filter_map(|k| k.strip_prefix("key-").map(|x| x.to_string())).collect();
+                            if crate::cfg::CODE_MN_SORTS_DELTAS {
+                                // the model sorts whatever order it is given: hand it a rotation
+                                let mut rot = idx.clone();
+                                rot.rotate_left(3);
+                                out.op(format!("DELTAS 1 {}", rot.join(" ")), idx.join(","));
+                            } else {
+                                out.op(format!("DELTAS 0 {}", idx.join(" ")), idx.join(","));
+                            }
+                        }
+                    }
+                }
+                if fam.name == "dst-api" && *preset == "sim" {
+                    // this preset of an otherwise explored family is predicted by the model (fresh process: own statistics)
+                    let cfgn = cfg_numbers(fam.name, preset, seed, ops).expect("cfg numbers");
+                    let t = &traces[0];
+                    out.op(format!("RUN dst-api sim {} {} {}", seed, ops, cfgn), format!("{} | {}", trace_digest(&t.lines), t.lines.last().cloned().unwrap_or_default()));
+                }
                 if fam.modelled {
-                    let cfgn = cfg_numbers(fam.name, preset, seed).expect("cfg numbers");
+                    let cfgn = cfg_numbers(fam.name, preset, seed, ops).expect("cfg numbers");
                     // with an iteration order as input: every process is its own case (its own order)
                     let mut all: Vec<&Trace> = traces.iter().collect();
                     all.push(&p1);
@@ -1795,19 +2107,76 @@ fn part_b(a: &Args, out: &mut Out) {
                 }
             }
         }
+        if runs == 0 && only.is_none() {
+            out.violation(&format!("C20:harness:empty-cell:{}", fam.name), &format!("family {} produced no run at all", fam.name), json!({"family": fam.name}));
+        }
         explored.insert(fam.name.to_string(), json!({"modelled": fam.modelled, "runs": runs, "processes_per_run": k_children + 1, "all_agree": agree}));
     }
     out.extra.insert("harness_runs".into(), json!(explored));
     out.extra.insert("children_per_run".into(), json!(k_children));
 }
 
+/// the coverage audit of C20 against the eleven classes of missed inputs (also DESIGN §4 C20 "Coverage audit")
+fn audit() -> serde_json::Value {
+    json!({
+      "1 entry path / variant": {
+        "covered": "every pub harness-like type, every pub fn of those and of the kernel types, every preset constructor, every pub field of a harness configuration struct, every free run_* / summarize_* function of the simulation files is ENUMERATED FROM THE SOURCE the binary was built against (c20_src.rs) and must be driven by c20.rs / c20_more.rs or listed with a reason: C20:coverage:{harness,entry,config-field}-not-…; the table type → M / E / K / N is in extra.source_entry_points",
+        "found_open_and_closed": "117 public entry points and 14 configuration fields were never driven (all run_*_batch / summarize_* / BatchRunner / with_seed, DSTSimulation and CrashSimulator API, RedisDSTSimulation::new_uniform / with_key_distribution / step, SimulatedConnection, ScenarioBuilder::run_with_eviction, both Workload generators, SimulationContext clock offsets / id counter, …): families batch, dst-api, scenario-timing, streaming-/compaction-workload, connection-gen, multi-node-api, new kernel ops",
+        "open": "SimulatedRuntime::clock()/network() and the simulated network / clock behind them (references to dropped temporaries, no caller); acl_dst (cargo feature acl off) — level N with the reason, both statically scanned"
+      },
+      "2 input alphabet": {
+        "covered": "seeds s…s+4 (s+19 thorough) AND one u64-edge seed per family × preset (0, 2^32, 2^63-1, 2^63, u64::MAX-1, u64::MAX); kernel seeds incl. the edges; scenario scripts with out-of-order and tied times",
+        "open": "-"
+      },
+      "3 comparison at equality": {
+        "covered": "RNG range / zone / Bernoulli boundaries as bit patterns; WAL file sizes around one entry; DSTSimulation time limit COMPUTED from a probe run (time after 40 steps −1 / exact / +1); workload probability bands at roll 0.0 / 1.0; probabilities 0 and 1 in every generated configuration; eviction ties",
+        "open": "WAL `i == crash_at` at num_writes is reached by seed choice only"
+      },
+      "4 configuration": {
+        "covered": "every pub configuration field enumerated from the source must be varied by a generated configuration or be proved inert (no `.field` read anywhere); CRDT replica counts 1…8 and drop probability 0 / 0.3 / 0.9 / 1.0; crash probability 0 … 1; zipf exponent 0.5 … 2; store presets and field-wise rates; prefixes, replica ids",
+        "found": "drop probability 1.0 reaches the ORSet violation text in HashSet order (C20:violation-text-in-hashset-order:crdt-orset)",
+        "open": "--features simulation"
+      },
+      "5 capacity thresholds": {
+        "covered": "MAX_PENDING_DELTAS, max_keys_per_sync, WAL file size, compaction / write-buffer limits (round 4); 400-command pipelines over the 8192-byte connection buffers; more than 5 checkpoints per node; Zipf tables of 20 and 1000 keys",
+        "open": "MAX_OUTBOUND_QUEUE (not on a simulation path: allow-listed off-path, machine-checked)"
+      },
+      "6 fault kinds": {
+        "covered": "child exit ≠ 0 = C20:child-failed; a panic on a generated configuration is an outcome that must be identical everywhere; a panic on a BUILT-IN preset = C20:harness-panicked",
+        "open": "error returns of WalDSTHarness::run (rotator creation) are unreachable with the simulated store"
+      },
+      "7 history shapes": {
+        "covered": "fresh process, twice in one process, after another harness on the thread, consecutive runs inside a batch compared element-wise with single runs, manual stepping without the time limit",
+        "open": "-"
+      },
+      "8 node-global state": {
+        "covered": "thread-local BUGGIFY configuration (defect C, required set_config calls checked statically) and STATISTICS (finding buggify-stats-cumulative); scan kind global-state lists every function touching a static / thread_local (only BUGGIFY_CONTEXT exists)",
+        "open": "a BuggifySuppressor held by the caller is an input, not hidden state"
+      },
+      "9 observations": {
+        "covered": "canonical trace + verbatim reports, both across processes AND in-process; final-state accessors in the order they return (order-of: lines); batch summaries; float statistics as bit patterns",
+        "open": "a {:?} of a whole hash container inside a format string is invisible to the static scan (found dynamically only when a run prints it)"
+      },
+      "10 finding signatures": {
+        "covered": "known findings are keyed by cause with exact predicates: first differing line is the statistics line (dst-api), an order-of: accessor line, two violation lines equal after canonicalising the sets; anything else keeps the bare signature and is a VIOLATION (self-test n)",
+        "open": "-"
+      },
+      "11 harness fragility": {
+        "covered": "source root from harness/Cargo.toml; scan failure / implausibly small scan = C20:source:scan-failed; C20_ONLY set = C20:harness:partial-run; a family without a run = C20:harness:empty-cell; unknown harness / preset in a child = exit 2 = C20:child-failed",
+        "open": "-"
+      }
+    })
+}
+
 pub fn run(a: &Args) {
     // `gen_bool(NaN)` panics by design of rand's Bernoulli; the answer line says `crash`
     std::panic::set_hook(Box::new(|_| {}));
     let mut out = Out::new(&a.out);
+    crate::c20_src::report(&mut out);
     part_b(a, &mut out);
     buggify::set_config(FaultConfig::default());
     let n = out.n_ops() + a.n as usize;
     part_a(a, &mut out, n);
+    out.extra.insert("audit".into(), audit());
     out.finish("a kernel script is non-trivial when at least 3 of its ops return a value; a harness run is non-trivial when its trace has more than 3 lines (wal: its one-line result struct with 13 numbers)");
 }
